@@ -58,14 +58,15 @@ FILES = {
     "alt/inc.h": "static int from_alt(void) { int *ap = 0; return *ap; }\n",
 }
 SOURCES = ["m.c", "n.c"]
-BASE = ["-q", "--template=" + projgen.TEMPLATE, "--error-exitcode=3"]
+# style (which implies warning, performance, portability) is part of the default so that every palette entry differs from
+# the default in exactly one aspect
+BASE = ["-q", "--template=" + projgen.TEMPLATE, "--error-exitcode=3", "--enable=style"]
 
 PALETTE = {
     "none": [],
-    "inconclusive": ["--inconclusive", "--enable=style"],
-    "style": ["--enable=style"],
-    "warning": ["--enable=warning"],
-    "allsev": ["--enable=warning,style,performance,portability"],
+    "inconclusive": ["--inconclusive"],
+    "information": ["--enable=information"],
+    "unusedfunc": ["--enable=unusedFunction"],
     "DFOO": ["-DFOO"],
     "UBAR": ["-UBAR"],
     "Iinc": ["-Iinc"],
